@@ -121,15 +121,15 @@ func ruleDecodeReturns(c *core.Ctx) {
 func ruleBudgetReaches(c *core.Ctx) {
 	const rule = "C08-R2"
 	constantMemory := map[string]string{
-		"pdf.FilterASCII85.Decode":       "constant-size state",
-		"pdf.FilterASCIIHex.Decode":      "constant-size state",
-		"pdf.FilterRunLength.Decode":     "constant-size state (128-byte run buffer)",
-		"pdf.FilterCryptIdentity.Decode": "identity",
-		"pdf.FilterCryptStandard.Decode": "not implemented: returns an error",
-		"pdf.FilterCryptNamed.Decode":    "not implemented: returns an error",
-		"pdf.FilterJPX.Decode":           "not implemented: returns an error",
+		"pdf.FilterASCII85.Decode":           "constant-size state",
+		"pdf.FilterASCIIHex.Decode":          "constant-size state",
+		"pdf.FilterRunLength.Decode":         "constant-size state (128-byte run buffer)",
+		"pdf.FilterCryptIdentity.Decode":     "identity",
+		"pdf.FilterCryptStandard.Decode":     "not implemented: returns an error",
+		"pdf.FilterCryptNamed.Decode":        "not implemented: returns an error",
+		"pdf.FilterJPX.Decode":               "not implemented: returns an error",
 		"pdf.(*filterNotImplemented).Decode": "returns an error",
-		"pdf.(*filterCrypt).Decode":      "block cipher with constant-size state",
+		"pdf.(*filterCrypt).Decode":          "block cipher with constant-size state",
 	}
 	for _, t := range filterImplementers(c) {
 		fn := methodFunc(c, t, "Decode")
